@@ -379,10 +379,14 @@ func GroupByIWithContext[T any, K comparable](iteratee func(ctx context.Context,
 			)
 
 			return func() {
-				sub.Unsubscribe()
-				notifyAll(func(o Observer[T]) { o.CompleteWithContext(subscriberCtx) })
+				// deferred: the groups must be completed even if an upstream teardown panics
+				defer func() {
+					notifyAll(func(o Observer[T]) { o.CompleteWithContext(subscriberCtx) })
 
-				groups = sync.Map{}
+					groups = sync.Map{}
+				}()
+
+				sub.Unsubscribe()
 			}
 		})
 	}
